@@ -43,7 +43,7 @@ CLAIMED["C14"] = {
             "the restoring of the objective after phase one (U14.ph2, a slice nested in a match arm: on the solution set the restored row minus the recorded value is the model's objective row, and basic variables get reduced cost zero when the basis is canonical), "
             "and the direct start (U14.canon, nested in the if-branch of into_tableau, with divide_matrix_row_by: scaling rows by their singleton entries keeps the solution set and the same objective identity holds); "
             "and the point read off a tableau is the basic solution, which solves the system of a canonical tableau (U14.vals, ghost theorem lemma_basic_sat). "
-            "Anti-cycling (finishing within the iteration limit) is liveness and is NOT decided.",
+            "Anti-cycling (finishing within the iteration limit) is liveness and is NOT decided deductively; a BOUNDED search runs the cycling examples of Chvatal and Beale under every order of their structural columns, with and without an improving extra column, through the real driver (U14.drive).",
     "note": "Trusted: prelude/f64_layer.rs (exact real arithmetic on finite floats; powi by a one-entry table). Which of several rows tied within the tolerance leaves is not constrained (any of them satisfies the contract). A Kani harness re-checks find_h under CBMC's IEEE float model in the thorough tier (bounded). "
             "Not decided: termination/anti-cycling, the selection of singleton columns for the direct start, the drive-out of artificial variables at level zero and the dropping of redundant rows in the two-phase start (split_at_mut).",
     "technique": "Verus loop invariants + ghost linear-algebra lemmas on extracted Tableau::pivot / step_inner / find_h / find_t / is_optimal; bounded executable-postcondition search for the ratio test; Kani bounded cross-check of find_h (thorough)",
